@@ -86,6 +86,7 @@ pub struct Rw<'a> {
     stats: &'a mut BTreeMap<String, usize>,
     used_loops: BTreeSet<usize>,
     used_closures: BTreeSet<usize>,
+    hint_occ: BTreeMap<String, usize>,
     used_hints: BTreeSet<usize>,
     used_annots: BTreeSet<String>,
     local_byte_consts: BTreeSet<String>,
@@ -706,6 +707,56 @@ impl<'a> VisitMut for Rw<'a> {
                         return;
                     }
                 }
+                // E17: OPT.unwrap_or_else(|| E)  ==>  match OPT { Some(v) => v, None => E }   (listed per closure:
+                // `closure K inline`; what Option::unwrap_or_else does, without a closure capturing &mut)
+                if mc.method == "unwrap_or_else" && mc.args.len() == 1 {
+                    if let (Expr::Path(_), Expr::Closure(c)) = (&*mc.receiver, &mc.args[0]) {
+                        let k = self.closure_ctr;
+                        if c.inputs.is_empty() && self.fs.closures.get(&k).map(|s| s.inline).unwrap_or(false) {
+                            self.closure_ctr += 1;
+                            self.used_closures.insert(k);
+                            self.bump("E17.unwrap_or_else_inlined");
+                            let mut x = (*mc.receiver).clone();
+                            self.visit_expr_mut(&mut x);
+                            let mut body = (*c.body).clone();
+                            self.visit_expr_mut(&mut body);
+                            *e = Expr::Verbatim(quote!( match #x { Some(v__) => v__, None => #body } ));
+                            return;
+                        }
+                    }
+                }
+                // E16: X[..N].copy_from_slice(Y) / X[N..].copy_from_slice(Y)  ==>  copy_into_prefix / copy_into_suffix
+                //      T.to_le_bytes()  ==>  u64_to_le_bytes(T)
+                if mc.method == "copy_from_slice" && mc.args.len() == 1 {
+                    if let Expr::Index(ix) = &*mc.receiver {
+                        if let Expr::Range(r) = &*ix.index {
+                            let helper = match (&r.start, &r.end, &r.limits) {
+                                (None, Some(n), RangeLimits::HalfOpen(_)) => Some(("copy_into_prefix", (**n).clone())),
+                                (Some(n), None, RangeLimits::HalfOpen(_)) => Some(("copy_into_suffix", (**n).clone())),
+                                _ => None,
+                            };
+                            if let Some((h, mut n)) = helper {
+                                self.bump("E16.subslice_copy");
+                                let mut x = (*ix.expr).clone();
+                                let mut y = mc.args[0].clone();
+                                self.visit_expr_mut(&mut x);
+                                self.visit_expr_mut(&mut n);
+                                self.visit_expr_mut(&mut y);
+                                let hid = Ident::new(h, Span::call_site());
+                                *e = Expr::Verbatim(quote!( #hid ( &mut #x , #n , #y ) ));
+                                return;
+                            }
+                        }
+                    }
+                }
+                let recv_is_u64 = match &*mc.receiver { Expr::Path(p) => p.path.get_ident().map(|i| self.fs.u64_names.contains(&i.to_string())).unwrap_or(false), _ => false };
+                if mc.method == "to_le_bytes" && mc.args.is_empty() && recv_is_u64 {
+                    self.bump("E16.to_le_bytes");
+                    let mut x = (*mc.receiver).clone();
+                    self.visit_expr_mut(&mut x);
+                    *e = Expr::Verbatim(quote!( u64_to_le_bytes( #x ) ));
+                    return;
+                }
                 // E15: X.iter().skip(K).all(CLOSURE)  ==>  iter_skip_all(X, K, CLOSURE)
                 if mc.method == "all" && mc.args.len() == 1 {
                     let mut hit: Option<(Expr, Expr)> = None;
@@ -778,6 +829,19 @@ impl<'a> VisitMut for Rw<'a> {
                     }
                 }
                 visit_mut::visit_expr_mut(self, e);
+                // E18: `Scalar::random(&mut g)` on a local generator is the prelude's `Scalar::random_mut(&mut g)`
+                // (same call; the `&mut` form lets the contract state the generator's state after the draw)
+                if let Expr::Call(c) = e {
+                    let is_random = norm(&c.func.to_token_stream().to_string()) == "Scalar::random";
+                    if is_random && c.args.len() == 1 {
+                        if let Expr::Reference(r) = &c.args[0] {
+                            if r.mutability.is_some() && matches!(&*r.expr, Expr::Path(_)) {
+                                self.bump("E18.random_mut");
+                                c.func = Box::new(parse_ex("Scalar::random_mut"));
+                            }
+                        }
+                    }
+                }
                 // E3: iterator arguments are collected
                 let mut bound: Option<(Ident, Expr)> = None;
                 if let Expr::Call(c) = e {
@@ -1009,8 +1073,11 @@ impl<'a> Rw<'a> {
     fn hints_at(&mut self, wh: &str) -> Vec<Stmt> {
         let mut v = vec![];
         let hints = self.fs.hints.clone();
+        // `POSITION#n` addresses the n-th time this position is met (1-based), e.g. the second `let x`
+        let n = { let c = self.hint_occ.entry(wh.to_string()).or_insert(0); *c += 1; *c };
+        let nth = format!("{}#{}", wh, n);
         for (k, (w, tags, text)) in hints.iter().enumerate() {
-            if w == wh && sel(tags, self.tags) {
+            if (w == wh || *w == nth) && sel(tags, self.tags) {
                 self.used_hints.insert(k);
                 let id = self.splice(text.clone());
                 v.push(Stmt::Expr(Expr::Verbatim(quote!( #id )), Some(Default::default())));
@@ -1342,6 +1409,7 @@ pub fn emit_fn(idx: &Index, fs: &FnSpec, tags: &[String], debug_view: bool, star
         stats,
         used_loops: BTreeSet::new(),
         used_closures: BTreeSet::new(),
+        hint_occ: BTreeMap::new(),
         used_hints: BTreeSet::new(),
         used_annots: BTreeSet::new(),
         local_byte_consts: BTreeSet::new(),
@@ -1686,6 +1754,7 @@ pub fn emit_type(idx: &Index, ts: &TypeSpec, stats: &mut BTreeMap<String, usize>
         stats,
         used_loops: BTreeSet::new(),
         used_closures: BTreeSet::new(),
+        hint_occ: BTreeMap::new(),
         used_hints: BTreeSet::new(),
         used_annots: BTreeSet::new(),
         local_byte_consts: BTreeSet::new(),
